@@ -2,10 +2,13 @@ package sim
 
 import (
 	"context"
+	"fmt"
 	"os"
+	"path/filepath"
 	"time"
 
 	"github.com/benbjohnson/litestream"
+	"github.com/benbjohnson/litestream/file"
 	"github.com/superfly/ltx"
 )
 
@@ -334,7 +337,94 @@ func genC08(r *Rng, tier string, idx int) *Program {
 		}
 	}
 	p.Ops = append(ops, Op{Kind: "audit_plans"})
+	// listings no history of this litestream version produces (files left by
+	// other versions, interrupted compactions, manual copies): seeded synthetic
+	// listings, read through the real file client
+	n := 6
+	if tier == "thorough" {
+		n = 60
+	}
+	p.Ops = append(p.Ops, Op{Kind: "synthetic_plans", N: int64(r.Uint64() >> 2), Level: n})
 	return p
+}
+
+// synthListing writes one seeded synthetic replica listing (empty files with
+// chosen names and modification times) below dir.
+func synthListing(r *Rng, dir string) {
+	n := r.Range(1, 24)
+	t0 := time.Now().Add(-time.Hour).Truncate(time.Second)
+	randomTimes := r.Chance(0.3)
+	at := func(max int) time.Time {
+		if randomTimes {
+			return t0.Add(time.Duration(r.Intn(n*1000+1)) * time.Millisecond)
+		}
+		d := time.Duration(max) * time.Second
+		if r.Chance(0.2) {
+			d += time.Duration(r.Intn(1500)) * time.Millisecond // uploaded later than its newest input
+		}
+		return t0.Add(d)
+	}
+	put := func(level, min, max int) {
+		p := litestream.LTXFilePath(dir, level, ltx.TXID(min), ltx.TXID(max))
+		os.MkdirAll(filepath.Dir(p), 0o755)
+		if _, err := os.Stat(p); err == nil {
+			return
+		}
+		os.WriteFile(p, nil, 0o644)
+		tm := at(max)
+		os.Chtimes(p, tm, tm)
+	}
+	// level 0: a suffix of 1..n, sometimes with one hole
+	l0 := r.Range(1, n+1)
+	hole := -1
+	if r.Chance(0.2) && n-l0 >= 2 {
+		hole = r.Range(l0+1, n-1)
+	}
+	for i := l0; i <= n; i++ {
+		if i != hole {
+			put(0, i, i)
+		}
+	}
+	// compacted levels: a partition of 1..m with a pruned prefix, sometimes with
+	// overlapping (wide or narrow) extra files
+	levels := []int{1, 2}
+	if r.Chance(0.3) {
+		levels = append(levels, 3)
+	}
+	for _, lv := range levels {
+		if r.Chance(0.15) {
+			continue
+		}
+		m := r.Range(1, n)
+		var segs [][2]int
+		for a := 1; a <= m; {
+			b := a + r.Intn(5)
+			if b > m {
+				b = m
+			}
+			segs = append(segs, [2]int{a, b})
+			a = b + 1
+		}
+		drop := 0
+		if r.Chance(0.5) {
+			drop = r.Intn(len(segs) + 1)
+		}
+		for _, s := range segs[drop:] {
+			if r.Chance(0.05) {
+				continue // lost object
+			}
+			put(lv, s[0], s[1])
+		}
+		for k := r.Pick([]int{5, 3, 2}); k > 0; k-- {
+			a := r.Range(1, n)
+			b := r.Range(a, n)
+			put(lv, a, b)
+		}
+	}
+	// snapshots
+	for k := r.Pick([]int{3, 4, 2, 1}); k > 0; k-- {
+		put(litestream.SnapshotLevel, 1, r.Range(1, n))
+	}
 }
 
 func init() {
@@ -362,6 +452,34 @@ func init() {
 			t := vers[len(vers)-1].Created
 			os.Chtimes(path, t, t)
 			e.Res.Probes["perturb:resurrect_object"]++
+		}
+		return "ok", false
+	}
+	extraOps["synthetic_plans"] = func(e *Env, op *Op) (string, bool) {
+		r := NewRng(uint64(op.N))
+		for i := 0; i < op.Level && e.Viol == nil; i++ {
+			dir := filepath.Join(e.Scratch, fmt.Sprintf("synth-%d", i))
+			os.RemoveAll(dir)
+			synthListing(r, dir)
+			client := file.NewReplicaClient(dir)
+			var files []pfile
+			for lv := 0; lv <= litestream.SnapshotLevel; lv++ {
+				itr, err := client.LTXFiles(context.Background(), lv, 0, false)
+				if err != nil {
+					continue
+				}
+				for itr.Next() {
+					fi := itr.Item()
+					files = append(files, pfile{fi.Level, fi.MinTXID, fi.MaxTXID, fi.CreatedAt})
+				}
+				itr.Close()
+			}
+			if v := e.auditPlansOn(client, files, 1000); v != nil {
+				v.Facts["synthetic_listing"] = true
+				e.Viol = v
+			}
+			e.Res.Probes["synthetic_listings"]++
+			os.RemoveAll(dir)
 		}
 		return "ok", false
 	}
